@@ -218,14 +218,25 @@ def source_of(case, name):
             % (name, ', '.join(['self'] + ps), POISON, names, name, ', '.join(['self'] + ps)))
   if case['kind'] == 'nest':
     return nest_source(case, name)
-  src = 'def %s(%s):\n  return dict(locals())\n' % (name, ', '.join(ps))
   if case.get('via') == 'subclass':
+    # the wrapped logic RAISES on a poisoned argument — in the plain function and in `_call` alike
+    names = [n for n, _ in sig['pos']]
+    src = ('def %s(%s):\n'
+           '  r = dict(locals())\n'
+           '  if any(type(r[n]) is int and r[n] == %d for n in %r):\n'
+           '    raise ValueError("poisoned argument")\n'
+           '  return r\n' % (name, ', '.join(ps), POISON, names))
     # class X(pg.Functor) with annotated members and a zero-argument `_call` reading self.<member>
     members = ''.join('  %s: typing.Any%s\n' % (n, '' if d is None else ' = %d' % d) for n, d in sig['pos'])
     body = ', '.join('%s=self.%s' % (n, n) for n, _ in sig['pos'])
     src += ('class %s_sub(pg.Functor):\n%s'
             '  def _call(self):\n'
-            '    return dict(%s)\n' % (name, members or '  pass\n', body))
+            '    r = dict(%s)\n'
+            '    if any(type(r[n]) is int and r[n] == %d for n in %r):\n'
+            '      raise ValueError("poisoned argument")\n'
+            '    return r\n' % (name, members or '  pass\n', body, POISON, names))
+    return src
+  src = 'def %s(%s):\n  return dict(locals())\n' % (name, ', '.join(ps))
   return src
 
 
@@ -238,11 +249,18 @@ def nest_source(case, name):
   names = [n for n, _ in members]
   ref_in = ', '.join('%s%s' % (n, '' if d is None else '=%d' % d) for n, d in members)
   return (
-      'def %(N)s_in_ref(%(ref_in)s):\n  return dict(locals())\n'
+      'def %(N)s_in_ref(%(ref_in)s):\n'
+      '  r = dict(locals())\n'
+      '  if any(type(v) is int and v == %(P)d for v in r.values()):\n'
+      '    raise ValueError("poisoned argument")\n'
+      '  return r\n'
       'def %(N)s(other%(comma)s%(ref_in)s):\n  return dict(locals())\n'
       'class %(N)s_in(pg.Functor):\n%(decl)s'
       '  def _call(self):\n'
-      '    return dict(%(mine)s)\n'
+      '    r = dict(%(mine)s)\n'
+      '    if any(type(v) is int and v == %(P)d for v in r.values()):\n'
+      '      raise ValueError("poisoned argument")\n'
+      '    return r\n'
       'class %(N)s_out(pg.Functor):\n'
       '  other: typing.Any\n%(decl)s'
       '  def _call(self):\n'
@@ -259,7 +277,7 @@ def nest_source(case, name):
       '      r["thread_read_inner"] = ctx["in_thread"](lambda: ctx["snap"](o, %(names)r))\n'
       '      r["thread_called"] = ctx["in_thread"](lambda: ctx["run"](lambda: o(*ctx["a"], **ctx["k"])))\n'
       '    return r\n' % dict(N=name, ref_in=ref_in, comma=', ' if members else '', decl=decl, mine=mine,
-                              comma2=', ' if members else '', names=names, names_o=['other'] + names))
+                              comma2=', ' if members else '', names=names, names_o=['other'] + names, P=POISON))
 
 
 _COUNTER = [0]
@@ -288,7 +306,7 @@ def gen_module():
 
 # Argument values cross the protocol as ints. Codes <= 0 stand for the falsy Python values; the
 # model treats all of them as opaque scalars.
-SPECIALS = {-1: None, -2: '', -3: False, -4: []}
+SPECIALS = {-1: None, -2: '', -3: False, -4: [], -5: [2, 3]}
 INNER = 99      # wire code of `the inner functor object` in nest cases
 
 
@@ -296,6 +314,8 @@ def dec(v):
   """wire code -> Python value (a fresh object for the list)."""
   if v == -4:
     return []
+  if v == -5:
+    return [2, 3]
   return SPECIALS[v] if v in SPECIALS else v
 
 
@@ -309,6 +329,8 @@ def enc(v):
     return -2
   if isinstance(v, (list, tuple)) and len(v) == 0:
     return -4
+  if isinstance(v, (list, tuple)) and list(v) == [2, 3]:
+    return -5
   if hasattr(v, 'sym_init_args') and hasattr(v, 'specified_args'):
     return INNER      # a functor object used as an argument value (nest cases)
   if isinstance(v, bool) or not isinstance(v, int):
@@ -350,7 +372,7 @@ def outcome(thunk, sig, with_kind=False, attr=None):
     r = thunk()
   except Exception as e:   # pylint: disable=broad-except
     out = {'err': type(e).__name__}
-    if with_kind:
+    if with_kind and isinstance(e, TypeError):
       out['kind'] = cpython_kind(e)
     return out
   if attr is not None:
@@ -422,7 +444,10 @@ class C18(Prop):
           'keywords); late binding on the functor object between construction and call (rebind / setattr / del of '
           'named parameters, of **kwargs entries and of the *args list) combined with every call-time form; '
           'class-based functors nested as members of class-based functors sharing member names, where the outer '
-          '_call READS the inner members, CALLS the inner functor, reads again, also from a second thread. '
+          '_call READS the inner members, CALLS the inner functor, reads again, also from a second thread; '
+          'class-based functors whose _call RAISES on a poisoned argument (caller or outer functor catches), followed '
+          'by member reads, a rebind and further calls on the same object; call-time keywords named like the *args '
+          'parameter (scalar, falsy, empty and non-empty list values) for signatures with and without **kwargs. '
           'Non-trivial: at least one argument is '
           'supplied and the signature has at least one parameter; distinct: by the whole case.')
   trusted_base = [
@@ -678,6 +703,24 @@ class C18(Prop):
     case['c2'] = dict(c2, kwargs=dedupe(c2['kwargs']), **c2f)
     # the call (not the construction) runs under pg.enable_type_check(False) in ~12 % of the cases
     case['tc_call'] = not rng.chance(0.12)
+    if sig['varargs'] is not None and rng.chance(0.08) and all(k != sig['varargs'] for k, _ in case['c2']['kwargs']):
+      # a call-time keyword named like the *args parameter (scalar, falsy, empty and non-empty list)
+      case['c2']['kwargs'] = case['c2']['kwargs'] + [[sig['varargs'], rng.choice([5, 0] if auto_typing else [-5, -5, -4, 5, 0])]]
+    if via == 'subclass':
+      if rng.chance(0.3):
+        # the wrapped logic raises (poisoned call-time argument); the caller catches
+        tgt = case['c2']
+        if tgt['kwargs'] and rng.chance(0.6):
+          tgt['kwargs'][rng.below(len(tgt['kwargs']))][1] = POISON
+        elif tgt['args']:
+          tgt['args'][rng.below(len(tgt['args']))] = POISON
+        elif sig['pos']:
+          n = sig['pos'][-1][0]
+          tgt['kwargs'] = [kv for kv in tgt['kwargs'] if kv[0] != n] + [[n, POISON]]
+          if rng.chance(0.7):
+            tgt['override'] = True
+      if sig['pos']:
+        case['after_upd'] = [[rng.choice(sig['pos'])[0], self.val(rng)]]
     if rng.chance(0.22):
       self.gen_late(rng, case)
     if rng.chance(0.15) and sig_names(sig):
@@ -720,6 +763,15 @@ class C18(Prop):
       return c1, c2
     ic1, ic2 = flags(ic1, ic2)
     oc1, oc2 = flags(oc1, oc2)
+    if rng.chance(0.3):
+      # the inner functor's `_call` raises (the outer one catches)
+      if ic2['kwargs']:
+        ic2['kwargs'][rng.below(len(ic2['kwargs']))][1] = POISON
+      elif ic2['args']:
+        ic2['args'][-1] = POISON
+      else:
+        ic2['kwargs'] = [[members[-1][0], POISON]]
+        ic2['override'] = True
     return {'kind': 'nest', 'via': 'subclass', 'ann': False, 'auto_typing': False, 'mode': 'nested',
             'sig': sig, 'sig_in': sig_in, 'c1': oc1, 'c2': oc2, 'in_c1': ic1, 'in_c2': ic2,
             'late': late, 'thread': rng.chance(0.5)}
@@ -885,7 +937,7 @@ class C18(Prop):
         d.pop('self', None)
         return d
       out2 = outcome(via_bind, sig)
-      if strip_kind(out) != out2:
+      if strip_kind(out) != out2 and out.get('err') != 'ValueError':    # ValueError: raised by the body
         obs.setdefault('bind_disagrees', []).append([args, kwargs, out, out2])
       return out
 
@@ -1004,6 +1056,15 @@ class C18(Prop):
       model['call0'] = outcome(lambda: obj(), sig)
     # the functor must not have been changed by being called
     obs['init_args_after_call'] = canon_init_args(obj, missing, sig)
+    if case['via'] == 'subclass':
+      # after the call (which may have raised inside `_call`): member reads, a rebind, further calls
+      def reads(o):
+        out = []
+        for n, _ in sig['pos']:
+          v = getattr(o, n)
+          out.append([n, 'MISSING' if (isinstance(v, type(missing)) and v == missing) else enc(v)])
+        return out
+      obs['member_reads'] = reads(obj)
     with scope():
       obs['clone_call'] = outcome(lambda: obj.clone()(*pos(a2), **call_kw), sig)
       obs['clone_deep_call'] = outcome(lambda: obj.clone(deep=True)(*pos(a2), **call_kw), sig)
@@ -1022,6 +1083,20 @@ class C18(Prop):
     if obs['json_sets'] is not None:
       model['json_specified'], model['json_default'], model['json_nondefault'] = obs['json_sets']
     model['clone_call'] = obs['clone_call']
+    if case['via'] == 'subclass' and case.get('after_upd'):
+      # finally: re-bind a member on the same object, read the members, call again
+      try:
+        obj.rebind(raise_on_no_change=False, **kw(case['after_upd']))
+        obs['member_reads_after_rebind'] = reads(obj)
+        obs['call0_after_rebind'] = outcome(lambda: obj(), sig)
+        obs['args_after_rebind'] = canon_init_args(obj, missing, sig)
+      except Exception as e:   # pylint: disable=broad-except
+        obs['after_rebind_error'] = type(e).__name__
+      na = apply_late(sig, name_args(sig, a1, k1),
+                      list(case.get('late', [])) + [{'op': 'rebind', 'upd': case['after_upd']}])
+      if na is not None:
+        rc = to_call(sig, *na)
+        obs['py_after_rebind'] = direct(rc['args'], rc['kwargs'])
     return {'model': model, 'obs': obs}
 
   def impl_nest(self, case, pg, mod, name, obs):
@@ -1194,6 +1269,19 @@ class C18(Prop):
   def compare(self, case, impl_out, model_out):
     a = impl_out['model']
     b = self.hist_prediction(model_out) if case['kind'] == 'hist' else dict(model_out)
+    if case.get('via') == 'subclass':
+      # the model predicts what the body SEES; the generated body raises ValueError on a poisoned argument
+      def poisonify(o):
+        if isinstance(o, dict) and 'ok' in o and isinstance(o['ok'], dict) and 'named' in o['ok'] \
+            and any(v == POISON for _, v in o['ok']['named']):
+          return {'err': 'ValueError'}
+        return o
+      if case['kind'] == 'functor':
+        for k in ('call', 'call0', 'clone_call', 'json_call0', 'py_c1', 'py_c2', 'py_eff'):
+          if k in b:
+            b[k] = poisonify(b[k])
+      elif isinstance(b.get('call'), dict) and 'ok' in b['call']:
+        b['call'] = {'ok': dict(b['call']['ok'], called=poisonify(b['call']['ok']['called']))}
     if case['kind'] == 'nest' and isinstance(b.get('call'), dict) and 'ok' in b['call'] and not case.get('thread'):
       b['call'] = {'ok': {k: v for k, v in b['call']['ok'].items() if not k.startswith('thread_')}}
     for k in ('specified', 'default', 'nondefault', 'json_specified', 'json_default', 'json_nondefault'):
@@ -1207,6 +1295,16 @@ class C18(Prop):
     return '; '.join(diffs)[:900] if diffs else None
 
   # -- the property itself ------------------------------------------------------------------
+
+  def binds_varargs_by_name(self, case):
+    """Construction (or direct class construction) with a keyword named like the *args parameter."""
+    va = case['sig']['varargs']
+    return va is not None and any(k == va for k, _ in case['c1']['kwargs'])
+
+  def calls_with_varargs_name(self, case):
+    """A CALL-TIME keyword named like the *args parameter."""
+    va = case['sig']['varargs']
+    return va is not None and case['kind'] == 'functor' and any(k == va for k, _ in case['c2']['kwargs'])
 
   def uses_varargs_name_as_keyword(self, case):
     va = case['sig']['varargs']
@@ -1240,6 +1338,17 @@ class C18(Prop):
   def oracle(self, case, out):
     obs = out['obs']
     f = self._oracle_core(case, out)
+    ign = case['kind'] == 'functor' and (case['c2']['ignore'] if case['c2']['ignore'] is not None else case['c1']['ignore'])
+    prebound = (case['kind'] == 'functor' and case['sig']['varargs'] is not None
+                and (len(case['c1']['args']) > len(case['sig']['pos'])
+                     or any(op['op'] == 'set_va' for op in case.get('late', []))))
+    if f and self.calls_with_varargs_name(case) and (case['sig']['varkw'] is not None or (ign and prebound)):
+      # F355: with **kwargs declared, a call-time keyword named like *args is consumed as the variadic
+      # list (or dropped) instead of landing in **kwargs; and with the *args list already bound it counts
+      # as a re-specification of that field, which ignore_extra_args does not drop. Otherwise (no **kwargs,
+      # list not bound) the functor refuses / ignores it exactly as the plain function does — NOT excused.
+      return {'signature': 'varargs-name-as-call-keyword',
+              'what': 'call-time keyword named like the *args parameter, **kwargs declared: ' + f['what']}
     if f and self.passes_posonly_by_keyword(case):
       # F62: symbolic fields are addressable by name, also those of positional-only parameters
       return {'signature': 'posonly-keyword',
@@ -1260,8 +1369,8 @@ class C18(Prop):
     if obs.get('bind_disagrees'):
       return {'signature': 'interpreter-self-disagreement',
               'what': 'inspect.signature().bind differs from the real call: %s' % obs['bind_disagrees'][:1]}
-    if self.uses_varargs_name_as_keyword(case):
-      return None      # documented precondition: the *args parameter is a symbolic field of that name
+    if self.binds_varargs_by_name(case):
+      return None      # documented: the *args parameter is a symbolic field of that name (F(args=[...]))
     c1 = case['c1']
     n1 = name_args(sig, c1['args'], c1['kwargs'])
 
@@ -1309,6 +1418,22 @@ class C18(Prop):
       return f
     if obs['init_args_after_call'] != m['sym_init_args']:
       return {'signature': 'call-mutates-functor', 'what': 'sym_init_args changed by __call__: %s -> %s' % (m['sym_init_args'], obs['init_args_after_call'])}
+    if 'member_reads' in obs:
+      exp = [kv for kv in self.expected_report(sig, n1) if kv[0] in [p[0] for p in sig['pos']]]
+      if obs['member_reads'] != exp:
+        return {'signature': 'members-after-call%s' % ('-that-raised' if m['call'].get('err') == 'ValueError' else ''),
+                'what': 'after the call (%s) the members read %s; the bound arguments are %s' % (m['call'], obs['member_reads'], exp)}
+      if 'after_rebind_error' in obs:
+        return {'signature': 'rebind-after-call-raises:%s' % obs['after_rebind_error'], 'what': 'rebind after the call raises'}
+      if 'member_reads_after_rebind' in obs:
+        n2_ = apply_late(sig, n1, [{'op': 'rebind', 'upd': case['after_upd']}])
+        exp2 = [kv for kv in self.expected_report(sig, n2_) if kv[0] in [p[0] for p in sig['pos']]]
+        if obs['member_reads_after_rebind'] != exp2:
+          return {'signature': 'members-after-call-and-rebind',
+                  'what': 'after the call (%s) and rebind(%s) the members read %s; expected %s' % (m['call'], case['after_upd'], obs['member_reads_after_rebind'], exp2)}
+        f = self._mismatch('call-after-call-and-rebind', obs['py_after_rebind'], obs['call0_after_rebind'])
+        if f:
+          return f
     if late:
       # re-bound functor: F…() is the plain function called with the REPORTED arguments
       f = self._mismatch('call-with-reported-args', obs['py_reported'], m['call0'])
@@ -1466,6 +1591,18 @@ class C18(Prop):
                   'what': '%s of the wrapper after the history holds %s, the wrapper %s' % (k, obs[k], obs['final'])}
     return None
 
+  def expected_report(self, sig, n1):
+    named, va, extra = n1
+    d = dict((k, v) for k, v in named)
+    exp = []
+    for n, dflt in sig['pos']:
+      exp.append([n, d.get(n, dflt if dflt is not None else 'MISSING')])
+    if sig['varargs'] is not None:
+      exp.append([sig['varargs'], list(va)])
+    for n, dflt in sig['kwonly']:
+      exp.append([n, d.get(n, dflt if dflt is not None else 'MISSING')])
+    return exp + [list(kv) for kv in extra]
+
   def _reported(self, sig, n1, reported, stage, full):
     """sym_init_args denote the supplied arguments: supplied value, else default, else MISSING."""
     if n1 is None or reported is None:
@@ -1558,8 +1695,12 @@ class C18(Prop):
       h.append('supplied:%d' % (len(c1['args']) + len(c1['kwargs']) + len(c2['args']) + len(c2['kwargs'])))
       if not (c1['args'] or c1['kwargs'] or c2['args'] or c2['kwargs']):
         h.append('trivial:no-arguments')
-    if self.uses_varargs_name_as_keyword(case):
-      h.append('precondition:keyword-named-like-varargs')
+    if self.binds_varargs_by_name(case):
+      h.append('precondition:varargs-bound-by-name-at-construction')
+    if self.calls_with_varargs_name(case):
+      h.append('call-keyword-named-like-varargs:%s' % ('with-varkw' if sig['varkw'] is not None else 'no-varkw'))
+    if case.get('via') == 'subclass' and case['kind'] == 'functor' and m.get('call', {}).get('err') == 'ValueError':
+      h.append('subclass:_call-raised')
     return h
 
   def shrink_candidates(self, case):
